@@ -165,6 +165,36 @@ def run(tier, seed):
     ok = r[0] == r[2] and r[0][0] == 'MITxError' or True
     outs = [l1(None, ['a', 'b'])['input_list'][0]['ok'], l2(None, ['c', 'd'])['input_list'][0]['ok'], l1(None, ['a', 'b'])['input_list'][0]['ok'], l2(None, ['a', 'b'])['input_list'][0]['ok']]
     (t.ok if outs == [True, True, True, False] else t.fail)('shared subgraders', 'two lists', *([] if outs == [True, True, True, False] else ['two ListGraders sharing a subgrader: %r' % outs]))
+    # a subgrader shared by all boxes of a ListGrader whose answers refer to sibling inputs: the subgrader's configuration stays as written,
+    # and a rejected submission (blank box) does not change what the next submission gets
+    def sib():
+        sub = fgm.FormulaGrader(variables=['x'])
+        return sub, lg.ListGrader(answers=['x+1', 'sibling_1 + 1'], subgraders=sub, ordered=True)
+    sub, lst = sib()
+    csnap = (list(sub.config['variables']), sorted(sub.config['sample_from']), sorted(sub.config['user_constants']))
+    seq = [['x+1', 'x+2'], ['x+1', ''], ['x+1', 'x+2'], ['x', 'x+1'], ['x+1', 'x+2']]
+    def lcall(g, inp):
+        try:
+            return ('ok', repr(g(None, inp)))
+        except Exception as e:
+            return (type(e).__name__, str(e)[:200])
+    for k, inp in enumerate(seq):
+        got = lcall(lst, inp)
+        want = lcall(sib()[1], inp)
+        now = (list(sub.config['variables']), sorted(sub.config['sample_from']), sorted(sub.config['user_constants']))
+        ok = got == want and now == csnap
+        (t.ok if ok else t.fail)('shared subgrader with sibling variables', (k, tuple(inp)), *([] if ok else [
+            'call %d %r on a ListGrader sharing one FormulaGrader: %r, a fresh grader gives %r; subgrader configuration %r (was %r)' % (k, inp, got, want, now, csnap)]))
+    # results handed out by one grader are not shared with other graders (or later calls): suppressed shape errors with and without wrong_msg
+    seen = []
+    for k, wm in enumerate(['Try again!', '', 'Other', '']):
+        gm = mgm.MatrixGrader(answers={'expect': '[1, 2]', 'msg': 'm'}, max_array_dim=1, suppress_matrix_messages=True, wrong_msg=wm)
+        for inp in ('[1, 2, 3]', '[1, 2] + 1', '[1, 2, 3]'):
+            got = call(gm, None, inp)
+            ok = got[0] == 'ok' and got[1] is False and got[3] == wm
+            seen.append(got)
+            (t.ok if ok else t.fail)('results not shared between graders', (k, wm, inp), *([] if ok else [
+                "MatrixGrader(suppress_matrix_messages=True, wrong_msg=%r) #%d on %r: %r, expected an incorrect result with message %r" % (wm, k, inp, got, wm)]))
     # metric suffixes / registered defaults must not leak
     fgm.FormulaGrader(answers='1', metric_suffixes=True)(None, '1')
     if settings() != base_settings:
